@@ -42,6 +42,10 @@ func rawSupported() error {
 }
 
 // getRig starts (once per configuration) the real mirror goroutine and the listeners.
+// thirdParty is this worker process's own loopback address (127.0.<shard+1>.1): the UDP listener and
+// the raw capture are bound to it, so the kernel delivers only this process's mirrored datagrams.
+func thirdParty() net.IP { return net.IPv4(127, 0, byte(mck.Shard+1), 1) }
+
 func getRig(isSFlow bool, udpSize, port int) (*mirrorRig, error) {
 	key := fmt.Sprint(isSFlow, udpSize, port)
 	if r, ok := rigs[key]; ok {
@@ -56,12 +60,17 @@ func getRig(isSFlow bool, udpSize, port int) (*mirrorRig, error) {
 		}
 	}
 	if lsn == nil {
-		lsn, err = net.ListenUDP("udp4", &net.UDPAddr{IP: net.IPv4(127, 0, 0, 1), Port: port})
+		lsn, err = net.ListenUDP("udp4", &net.UDPAddr{IP: thirdParty(), Port: port})
 		if err != nil {
 			return nil, err
 		}
 		raw, err = syscall.Socket(syscall.AF_INET, syscall.SOCK_RAW, syscall.IPPROTO_UDP)
 		if err != nil {
+			return nil, err
+		}
+		var la syscall.SockaddrInet4
+		copy(la.Addr[:], thirdParty().To4())
+		if err = syscall.Bind(raw, &la); err != nil {
 			return nil, err
 		}
 		syscall.SetsockoptTimeval(raw, syscall.SOL_SOCKET, syscall.SO_RCVTIMEO, &syscall.Timeval{Usec: 300000})
@@ -71,7 +80,7 @@ func getRig(isSFlow bool, udpSize, port int) (*mirrorRig, error) {
 	o := NewOptions()
 	o.IPFIXUDPSize, o.SFlowUDPSize = udpSize, udpSize
 	opts = o
-	dst := net.ParseIP("127.0.0.1")
+	dst := thirdParty().To16()
 	if isSFlow {
 		sFlowBuffer = &sync.Pool{New: func() interface{} { return make([]byte, udpSize) }}
 		r.sflow = make(chan SFUDPMsg, 4)
@@ -84,6 +93,39 @@ func getRig(isSFlow bool, udpSize, port int) (*mirrorRig, error) {
 	time.Sleep(20 * time.Millisecond) // let the goroutine read opts and open its raw socket
 	rigs[key] = r
 	return r, nil
+}
+
+// recvNow: one non-blocking receive on a UDP socket (no deadline arithmetic: a deadline that expires
+// while the goroutine is descheduled would report "nothing there" without looking).
+func recvNow(c *net.UDPConn, buf []byte) (n int, from net.IP, ok bool) {
+	rc, err := c.SyscallConn()
+	if err != nil {
+		return 0, nil, false
+	}
+	rc.Control(func(fd uintptr) {
+		k, sa, e := syscall.Recvfrom(int(fd), buf, syscall.MSG_DONTWAIT)
+		if e == nil {
+			n, ok = k, true
+			if a, isv4 := sa.(*syscall.SockaddrInet4); isv4 {
+				from = net.IPv4(a.Addr[0], a.Addr[1], a.Addr[2], a.Addr[3])
+			}
+		}
+	})
+	return
+}
+
+// recvWait polls recvNow until a datagram is there (kernel delivery; generous limit, never reached when it works)
+func recvWait(c *net.UDPConn, buf []byte, limit time.Duration) (int, net.IP, bool) {
+	deadline := time.Now().Add(limit)
+	for {
+		if n, from, ok := recvNow(c, buf); ok {
+			return n, from, true
+		}
+		if time.Now().After(deadline) {
+			return 0, nil, false
+		}
+		time.Sleep(50 * time.Microsecond)
+	}
 }
 
 var mirrorExporters = []net.IP{{192, 1, 1, 1}, {10, 0, 0, 1}, {127, 0, 0, 2}, {255, 255, 255, 254}}
@@ -154,20 +196,16 @@ func mirrorSpace(tier string) mck.Space {
 		}
 		c.SetCase(desc)
 		// each worker process uses its own target ports (the UDP listeners cannot be shared)
-		port := cf.port + int(mck.Shard)
-		if cf.port == 65535 {
-			port = cf.port - int(mck.Shard)
-		}
+		port := cf.port
 		rig, err := getRig(cf.sflow, cf.size, port)
 		if err != nil {
 			c.Violation("mirror:rig", err.Error(), desc())
 			return
 		}
 		// drain anything left over
-		rig.lsn.SetReadDeadline(time.Now().Add(time.Microsecond))
 		tmp := make([]byte, 65536)
 		for {
-			if _, _, e := rig.lsn.ReadFromUDP(tmp); e != nil {
+			if _, _, ok := recvNow(rig.lsn, tmp); !ok {
 				break
 			}
 		}
@@ -191,12 +229,12 @@ func mirrorSpace(tier string) mck.Space {
 			lenClass = "len>max-28"
 		}
 		cls := fmt.Sprintf("%s:%s:addr%d", proto, lenClass, len(ip))
-		rig.lsn.SetReadDeadline(time.Now().Add(400 * time.Millisecond))
-		m, from, err := rig.lsn.ReadFromUDP(tmp)
-		if err != nil {
-			c.Violation("mirror:not-delivered:"+cls, "no datagram reached the third-party collector: "+err.Error(), desc())
+		m, fromIP, got := recvWait(rig.lsn, tmp, 5*time.Second)
+		if !got {
+			c.Violation("mirror:not-delivered:"+cls, "no datagram reached the third-party collector", desc())
 			return
 		}
+		from := &net.UDPAddr{IP: fromIP}
 		if !bytes.Equal(tmp[:m], want) {
 			c.Violation("mirror:payload:"+cls, fmt.Sprintf("payload differs: got %d octets, want %d", m, len(want)), desc())
 			return
@@ -208,10 +246,12 @@ func mirrorSpace(tier string) mck.Space {
 		// IP / UDP header consistency from the raw capture
 		hdr := make([]byte, 65536)
 		found := false
-		for tries := 0; tries < 50 && !found; tries++ {
-			k, _, e := syscall.Recvfrom(rig.raw, hdr, 0)
+		rawDeadline := time.Now().Add(5 * time.Second)
+		for !found && time.Now().Before(rawDeadline) {
+			k, _, e := syscall.Recvfrom(rig.raw, hdr, syscall.MSG_DONTWAIT)
 			if e != nil {
-				break
+				time.Sleep(50 * time.Microsecond)
+				continue
 			}
 			if k < 28 || hdr[9] != 17 {
 				continue
@@ -223,7 +263,7 @@ func mirrorSpace(tier string) mck.Space {
 			found = true
 			tot := int(binary.BigEndian.Uint16(hdr[2:]))
 			ulen := int(binary.BigEndian.Uint16(hdr[ihl+4:]))
-			if tot != 20+8+n || ulen != 8+n || ihl != 20 || !net.IP(hdr[16:20]).Equal(net.IPv4(127, 0, 0, 1)) || k != tot {
+			if tot != 20+8+n || ulen != 8+n || ihl != 20 || !net.IP(hdr[16:20]).Equal(thirdParty()) || k != tot {
 				c.Violation("mirror:header:"+cls, fmt.Sprintf("IP total length %d, UDP length %d, IHL %d, captured %d octets, dst %s for a payload of %d", tot, ulen, ihl, k, net.IP(hdr[16:20]), n), desc())
 				return
 			}
@@ -233,8 +273,7 @@ func mirrorSpace(tier string) mck.Space {
 			return
 		}
 		// exactly one: nothing else may follow
-		rig.lsn.SetReadDeadline(time.Now().Add(200 * time.Microsecond))
-		if _, _, e := rig.lsn.ReadFromUDP(tmp); e == nil {
+		if _, _, again := recvNow(rig.lsn, tmp); again {
 			c.Violation("mirror:duplicate:"+cls, "a second datagram arrived", desc())
 		}
 		c.Nontrivial(mck.Hash64(want, ip, []byte(rig.key)))
